@@ -55,7 +55,7 @@ func c04Run(ctx *core.Ctx) {
 	if ctx.Part != "main" {
 		nSeeded /= 4
 	}
-	ctx.Rule = fmt.Sprintf("(A-C) the C03 history workload (all suffixes of length <=%d after 9 prefix states x 4 configurations + %d seeded histories up to length %d) executed lock-step with per-command reply accounting, strict RFC 5321 reply parsing, enhanced-code class rule and token attribution of backend verdicts; (D) every history re-executed as RFC 2920 pipelined groups and re-cut at seeded offsets, reply-code and callback sequences compared with the lock-step run; overlap matrix for chunked transfers: all 6 orders of {delivery 1 released, transaction 2 completed by the client, delivery 2 released} x abort {RSET, new greeting} x transaction 2 {BDAT LAST, DATA} x verdicts x {SMTP, LMTP}; control octets at %d reply-echo sites. Non-trivial: at least three backend callbacks observed; distinct by case.", exLen, nSeeded, maxLen, len(c04EchoSites))
+	ctx.Rule = fmt.Sprintf("(A-C) the C03 history workload (all suffixes of length <=%d after 10 prefix states x 6 configurations + %d seeded histories up to length %d) executed lock-step with per-command reply accounting, strict RFC 5321 reply parsing, enhanced-code class rule and token attribution of backend verdicts; (D) every history re-executed as RFC 2920 pipelined groups and re-cut at seeded offsets, reply-code and callback sequences compared with the lock-step run; overlap matrix for chunked transfers: all 6 orders of {delivery 1 released, transaction 2 completed by the client, delivery 2 released} x abort {RSET, new greeting} x transaction 2 {BDAT LAST, DATA} x verdicts x {SMTP, LMTP}; control octets at %d reply-echo sites. Non-trivial: at least three backend callbacks observed; distinct by case.", exLen, nSeeded, maxLen, len(c04EchoSites))
 	ctx.Assumptions = []string{"exact reply codes are judged only where the statement fixes them", "8-bit octets in reply text are not judged", "known findings C04:reply-text-control-octet:echo=<site> are matched per echo site"}
 	core.RunCases(ctx, func(emit func(c04Case)) {
 		histGenerate(ctx, exLen, nSeeded, maxLen, 41, func(h hcase) { emit(c04Case{Kind: "hist", H: h}) })
